@@ -1,12 +1,15 @@
 /-
-  C01 (c) pass widening — composition along a pass list for the fragment with `T | null` pairs
-  (`PlainN`).  `nullChainOK ps`: the chain reads  pre ++ NotRequiredFieldAsNullableType :: mid ++
-  DisjunctionWithNullToOptional :: post  with `pre`, `mid` made of passes proved to be the identity
-  on `PlainN`, and `post` of passes that are the identity on `Plain` or PrefixEnumValues.  Discharged by
-  `decide` on the regenerated `Cog.Gen.Chains.goChain` in Props/C01.lean.
+  C01 (c) pass widening — composition along a pass list for the extended fragment (`PlainX`: `T | null`
+  pairs and anonymous enums with fresh generated names).  `extChainOK ps`: the chain reads
+  pre ++ NotRequiredFieldAsNullableType :: mid ++ DisjunctionWithNullToOptional :: mid2 ++
+  AnonymousEnumToExplicitType :: post  with `pre`, `mid` made of passes proved to be the identity on
+  `PlainN`, `mid2` of passes that are the identity on `PlainE`, and `post` of passes that are the
+  identity on `Plain` or PrefixEnumValues.  Discharged by `decide` on the regenerated
+  `Cog.Gen.Chains.goChain` in Props/C01.lean.
 -/
 import Cog.Sem.WidenChain
 import Cog.Sem.WidenNull
+import Cog.Sem.WidenAnonEnum
 namespace Cog.Sem.Src
 open Cog.IR Cog.Passes
 
@@ -46,25 +49,63 @@ theorem splitAtPass_eq {p : PassId} : ∀ {ps pre post : List PassId}, splitAtPa
         obtain ⟨rfl, rfl⟩ := h
         simp [splitAtPass_eq (ps := xs) (pre := ab.1) (post := ab.2) (by rw [hs])]
 
-/-- the decidable shape check on a concrete chain -/
-def nullChainOK (ps : List PassId) : Bool :=
+/-- passes proved to be the identity on `PlainE` schema sets (no disjunction left) -/
+def idOnPlainE : PassId → Bool
+  | .disjunctionOfConstantsToEnum => true
+  | .flattenDisjunctions => true
+  | .disjunctionInferMapping => true
+  | .undiscriminatedDisjunctionToAny => true
+  | _ => false
+
+theorem idOnPlainE_sound (p : PassId) (hp : idOnPlainE p = true) (S : Schemas) (h : PlainE S = true) :
+    p.run S = .ok S := by
+  cases p <;> simp [idOnPlainE] at hp
+  · exact runDisjPass_plainE _ S h
+  · exact runDisjPass_plainE _ S h
+  · exact runDisjPass_plainE _ S h
+  · exact runDisjPass_plainE _ S h
+
+theorem runChain_idE : ∀ (ps : List PassId), ps.all idOnPlainE = true → ∀ S S', PlainE S = true →
+    runChain ps S = .ok S' → S' = S
+  | [], _, S, S', _, h => by simp [runChain] at h; exact h.symm
+  | p :: ps, hps, S, S', hP, h => by
+    simp only [List.all_cons, Bool.and_eq_true] at hps
+    simp only [runChain, idOnPlainE_sound p hps.1 S hP] at h
+    exact runChain_idE ps hps.2 S S' hP h
+
+/-- the decidable shape check on a concrete chain:
+    pre ++ NotRequiredFieldAsNullableType :: mid ++ DisjunctionWithNullToOptional :: mid2 ++
+    AnonymousEnumToExplicitType :: post -/
+def extChainOK (ps : List PassId) : Bool :=
   match splitAtPass .notRequiredFieldAsNullableType ps with
   | some (pre, rest) =>
     pre.all idOnPlainN &&
     (match splitAtPass .disjunctionWithNullToOptional rest with
-     | some (mid, post) => mid.all idOnPlainN && post.all denKeeping
+     | some (mid, rest2) =>
+       mid.all idOnPlainN &&
+       (match splitAtPass .anonymousEnumToExplicitType rest2 with
+        | some (mid2, post) => mid2.all idOnPlainE && post.all denKeeping
+        | none => false)
      | none => false)
   | none => false
 
-/-- pass widening along every chain of the checked shape, for pre-chain IR with `T | null` pairs:
-    a document of the source-side language belongs to `den` of the post-chain IR for the image
-    `nullOpt t` of the type (`t` itself when it has no pair, e.g. a reference to an object), with one
-    more unit of fuel; the post-chain IR is plain -/
-theorem widen_chainN (ps : List PassId) (hok : nullChainOK ps = true) (S S' : Schemas)
-    (hP : PlainN S = true) (hrun : runChain ps S = .ok S') :
+/-- the extended fragment: plain types, two-branch `T | null` pairs, anonymous enums whose generated
+    object names are fresh (evaluated on the IR AnonymousEnumToExplicitType receives, which on this
+    fragment is `nullOptS (nrS S)`; object and field names are those of `S`) -/
+def PlainX (S : Schemas) : Bool := PlainN S && enumFresh (nullOptS (nrS S))
+
+/-- pass widening along every chain of the checked shape, for pre-chain IR in `PlainX`: a document of
+    the source-side language of a type `t` without anonymous enum (`plainTy (nullOpt t)`: a plain
+    type, a `T | null` pair, in particular every reference to a named object) belongs to `den` of the
+    post-chain IR for the image `nullOpt t`, with one more unit of fuel; the post-chain IR is plain -/
+theorem widen_chainX (ps : List PassId) (hok : extChainOK ps = true) (S S' : Schemas)
+    (hX : PlainX S = true) (hrun : runChain ps S = .ok S') :
     Plain S' = true ∧
-    ∀ n t j, nrTy t = true → srcDen n S t j = true → den (n + 1) S' (nullOpt t) j = true := by
-  simp only [nullChainOK] at hok
+    ∀ n t j, nrTy t = true → plainTy (nullOpt t) = true → srcDen n S t j = true →
+      den (n + 1) S' (nullOpt t) j = true := by
+  simp only [PlainX, Bool.and_eq_true] at hX
+  obtain ⟨hP, hF⟩ := hX
+  simp only [extChainOK] at hok
   cases hs : splitAtPass .notRequiredFieldAsNullableType ps with
   | none => simp [hs] at hok
   | some ab =>
@@ -73,23 +114,37 @@ theorem widen_chainN (ps : List PassId) (hok : nullChainOK ps = true) (S S' : Sc
     cases hs2 : splitAtPass .disjunctionWithNullToOptional rest with
     | none => simp [hs2] at hok
     | some cd =>
-      obtain ⟨mid, post⟩ := cd
+      obtain ⟨mid, rest2⟩ := cd
       simp only [hs2, Bool.and_eq_true] at hok
-      rw [splitAtPass_eq hs, splitAtPass_eq hs2] at hrun
-      obtain ⟨S1, h1, h2⟩ := runChain_append' pre _ S S' hrun
-      have e1 : S1 = S := runChain_idN pre hok.1 S S1 hP h1
-      subst e1
-      simp only [runChain, PassId.run, NotRequired_run_plainN S1 hP] at h2
-      have hP2 := nrS_PlainN S1 hP
-      obtain ⟨S2, h3, h4⟩ := runChain_append' mid _ (nrS S1) S' h2
-      have e2 : S2 = nrS S1 := runChain_idN mid hok.2.1 _ S2 hP2 h3
-      subst e2
-      simp only [runChain, PassId.run, DisjunctionWithNullToOptional_run _ hP2] at h4
-      have hP3 := nullOptS_Plain _ hP2
-      obtain ⟨hP', hden⟩ := runChain_den post hok.2.2 _ S' hP3 h4
-      refine ⟨hP', fun n t j ht hsrc => ?_⟩
-      apply hden
-      apply xdenF_den _ hP3 _ _ _ (nullOpt_nr_plain t ht)
-      exact null_widen _ hP2 n t j ht (nr_widenN S1 hP n t j ht hsrc)
+      cases hs3 : splitAtPass .anonymousEnumToExplicitType rest2 with
+      | none => simp [hs3] at hok
+      | some ef =>
+        obtain ⟨mid2, post⟩ := ef
+        simp only [hs3, Bool.and_eq_true] at hok
+        rw [splitAtPass_eq hs, splitAtPass_eq hs2, splitAtPass_eq hs3] at hrun
+        obtain ⟨S1, h1, h2⟩ := runChain_append' pre _ S S' hrun
+        have e1 : S1 = S := runChain_idN pre hok.1 S S1 hP h1
+        subst e1
+        simp only [runChain, PassId.run, NotRequired_run_plainN S1 hP] at h2
+        have hP2 := nrS_PlainN S1 hP
+        obtain ⟨S2, h3, h4⟩ := runChain_append' mid _ (nrS S1) S' h2
+        have e2 : S2 = nrS S1 := runChain_idN mid hok.2.1 _ S2 hP2 h3
+        subst e2
+        simp only [runChain, PassId.run, DisjunctionWithNullToOptional_run _ hP2] at h4
+        have hP3 := nullOptS_PlainE _ hP2
+        obtain ⟨S3, h5, h6⟩ := runChain_append' mid2 _ _ S' h4
+        have e3 : S3 = nullOptS (nrS S1) := runChain_idE mid2 hok.2.2.1 _ S3 hP3 h5
+        subst e3
+        simp only [runChain, PassId.run, AnonymousEnumToExplicitType_run _ hP3] at h6
+        have hP4 := aeS_Plain _ hP3 hF
+        obtain ⟨hP', hden⟩ := runChain_den post hok.2.2.2 _ S' hP4 h6
+        refine ⟨hP', fun n t j ht hpt hsrc => ?_⟩
+        apply hden
+        apply xdenF_den _ hP4 _ _ _ hpt
+        have h7 := null_widen _ hP2 n t j ht (nr_widenN S1 hP n t j ht hsrc)
+        have h8 := ae_widen _ hP3 hF (n + 1) (nullOpt t) j "" "" "" (nullOpt_nr_pe t ht)
+          (by rw [eNew_plain _ _ _ hpt]; intro o ho; cases ho) h7
+        rw [eImg_plain _ _ _ hpt] at h8
+        exact h8
 
 end Cog.Sem.Src
